@@ -6,9 +6,9 @@ stickiness of the error indicator.
 namespace Carquet.Proofs.Sink
 open Carquet.Impl.Sink
 
-theorem fwrite_total (s : Stream) (d : Bytes) (o : Outcome) :
+theorem fwrite_total (s : Stream) (d : Bytes) (o : Outcome) (h : o.isFail = false) :
     (fwrite s d o).1.delivered ++ (fwrite s d o).1.pending = s.delivered ++ s.pending ++ d := by
-  cases o <;> simp [fwrite, List.append_assoc, List.take_append_drop]
+  cases o <;> simp_all [fwrite, Outcome.isFail, List.append_assoc, List.take_append_drop]
 
 theorem fwrite_err (s : Stream) (d : Bytes) (o : Outcome) :
     (fwrite s d o).1.err = (s.err || o.isFail) := by
@@ -58,7 +58,7 @@ theorem writes_spec (o : Oracle) : ∀ (ds : List Bytes) (s : Stream) (i : Nat),
           by_cases hk : k = i
           · subst hk; exact hnf
           · exact e4 k (by omega) (by simp at h2 ⊢; omega)
-        · rw [e5, fwrite_total]; simp [List.append_assoc]
+        · rw [e5, fwrite_total _ _ _ hnf]; simp [List.append_assoc]
       · intro he
         exact c (by rw [fwrite_err]; simp [he])
     · have hff : (o i).isFail = true := by
